@@ -33,7 +33,6 @@ import (
 	"github.com/bitcoin-sv/block-headers-service/transports/p2p"
 	"github.com/bitcoin-sv/block-headers-service/transports/p2p/peer"
 	"github.com/bitcoin-sv/block-headers-service/verifharness/lib"
-	"github.com/rs/zerolog"
 )
 
 const c13PeerSig = "c13-peer-pipelined-getheaders-wrong-answer"
@@ -124,7 +123,7 @@ func (r *c13PeerRig) close() {
 const c13PeerPver = uint32(70013)
 
 func c13NewPeerRig(n, nstale int) (*c13PeerRig, error) {
-	log := zerolog.Nop()
+	log := lib.DiscardLog()
 	if config.TimeSource == nil {
 		config.TimeSource = config.NewMedianTime(&log)
 	}
